@@ -1243,6 +1243,190 @@ def methods(repo, out):
                 out.ok(where, st, f'all {len(names)} TABLE_METHODS are keys of INTERP_METHODS')
 
 
+# ============================================================================= C15.rebuild (ONCE)
+@rule('C15.rebuild', floor=2)
+def rebuild(repo, out):
+    """Every setup builds every interpolation table anew from the current options (method, extrapolate, training
+    data): no output is skipped because a table from an earlier setup is still stored."""
+    for rel, qn, cls in ((MMS, 'MetaModelStructuredComp._setup_var_data', 'InterpND'),
+                         (MMSS, 'MetaModelSemiStructuredComp._setup_var_data', 'InterpNDSemi')):
+        fn = repo.func(rel, qn)
+        g = cfgm.build(fn)
+        sites = [n for n in g.nodes if n.kind == 'stmt' and any(astx.call_name(c) == cls for c in n.calls())]
+        if not sites:
+            raise AnalysisError(f'{fn.ident}: construction of {cls} not found')
+        for site in sites:
+            st = site.ast
+            stored = isinstance(st, ast.Assign) and any(
+                (astx.path(t) or '').startswith('self.interps') for t in st.targets)
+            if not stored:
+                out.unsure(fn, st, f'{cls} object is not stored in self.interps by this statement')
+                continue
+            loop = astx.enclosing(st, (ast.For,))
+            if loop is None:
+                out.ok(fn, st, 'all tables are built by one unconditional statement')
+                continue
+            hdrs = g.nodes_of(loop)
+            entry_ = [m for h in hdrs for m, lab in g.succ[h] if lab == 'true']
+            w = g.path(entry_, hdrs, avoid=g.nodes_of(st), labels=cfgm.noexc)
+            if w is None:
+                out.ok(fn, st, f'every iteration over {astx.src(loop.iter)} builds its {cls} from the current options')
+                continue
+            tests = [n for n in w if n.kind == 'test']
+            stale = [n for n in tests if astx.mentions(n.ast.test, 'interps')]
+            if stale:
+                out.bad(fn, stale[0].ast, f'an output whose table already exists in self.interps is skipped '
+                        f'(`{astx.src(stale[0].ast.test)}`): after a second setup() the {cls} of the first setup is '
+                        'still used, so a changed method / extrapolate option / training table is silently ignored',
+                        key='stale-table')
+            else:
+                out.unsure(fn, loop, 'an iteration can finish without building its table: ' + g.fmt_path(w))
+
+
+# =========================================================================== C15.zeroguard (GUARD)
+def _strip(e, mask=None):
+    """Expression with np.atleast_*() wrappers, `[mask]` selections and a trailing `** 2` removed."""
+    while True:
+        if isinstance(e, ast.Call) and (astx.call_name(e) or '').split('.')[-1] in ('atleast_1d', 'atleast_2d') \
+                and len(e.args) == 1:
+            e = e.args[0]
+        elif isinstance(e, ast.BinOp) and isinstance(e.op, ast.Pow) and isinstance(e.right, ast.Constant):
+            e = e.left
+        else:
+            break
+
+    class T(ast.NodeTransformer):
+        def visit_Subscript(self, n):
+            self.generic_visit(n)
+            if mask is not None and isinstance(n.slice, ast.Name) and n.slice.id == mask:
+                return n.value
+            return n
+    # re-parse instead of deepcopy: the nodes carry `_parent` links into the whole module
+    return T().visit(ast.parse(ast.unparse(e), mode='eval').body)
+
+
+_DUMP_SRC = {}
+
+
+def _guard_expr(test):
+    """E when test is `E > eps` / `E >= eps` (eps: a name or option called eps), else None."""
+    if isinstance(test, ast.Compare) and len(test.ops) == 1:
+        l, r = test.left, test.comparators[0]
+        if isinstance(test.ops[0], (ast.Gt, ast.GtE)) and astx.mentions(r, 'eps') and not astx.mentions(l, 'eps'):
+            return _strip(l)
+        if isinstance(test.ops[0], (ast.Lt, ast.LtE)) and astx.mentions(l, 'eps') and not astx.mentions(r, 'eps'):
+            return _strip(r)
+    return None
+
+
+def _denominators(ctx, e, at, mask, depth=0):
+    """Canonical dumps of the denominators of the quotients that make up value e (names resolved one level)."""
+    out = set()
+    for n in astx.walk(e):
+        if isinstance(n, ast.BinOp) and isinstance(n.op, ast.Div):
+            d_ = _strip(n.right, mask)
+            _DUMP_SRC[astx.dump(d_)] = ast.unparse(d_)
+            out.add(astx.dump(d_))
+    if not out and depth < 2:
+        base = e
+        if isinstance(base, ast.Subscript) and isinstance(base.slice, ast.Name) and base.slice.id == mask:
+            base = base.value
+        if isinstance(base, ast.Name):
+            for d in ctx.rd.defs(at, base.id):
+                if d.kind == 'stmt' and isinstance(d.ast, ast.Assign) and len(d.ast.targets) == 1 and \
+                        isinstance(d.ast.targets[0], ast.Name):
+                    out |= _denominators(ctx, d.ast.value, d, mask, depth + 1)
+    return out
+
+
+@rule('C15.zeroguard', floor=22)
+def zeroguard(repo, out):
+    """Akima division safeguards: a quotient is only installed under the zero test of its own denominator."""
+    rel = D + 'interp_akima.py'
+    for fn in repo.module(rel).funcs.values():
+        if 'eps' not in astx.names(fn.node):
+            continue
+        ctx = Ctx(fn)
+        # all zero tests of this function:  E > eps  (as an `if` or inside np.where)
+        guards = {}         # dump(E) -> source
+        masks = {}          # id(def node) -> (mask name, E)
+        for st in astx.walk_stmts(fn.node.body):
+            if isinstance(st, ast.If):
+                e = _guard_expr(st.test)
+                if e is not None:
+                    guards[astx.dump(e)] = astx.src(e)
+            elif isinstance(st, ast.Assign) and len(st.targets) == 1 and isinstance(st.targets[0], ast.Name):
+                v = st.value
+                if isinstance(v, ast.Subscript):
+                    v = v.value
+                if isinstance(v, ast.Call) and (astx.call_name(v) or '').split('.')[-1] == 'where' and len(v.args) == 1:
+                    e = _guard_expr(v.args[0])
+                    if e is not None:
+                        guards[astx.dump(e)] = astx.src(e)
+                        masks[id(st)] = (st.targets[0].id, e)
+        if not guards:
+            continue
+
+        def judge(st, e, mask):
+            """st installs a value under the zero test of e."""
+            at = ctx.at(st)
+            dens = _denominators(ctx, st.value, at, mask)
+            if not dens:
+                return
+            want = astx.dump(e)
+            # denominators that look like a weight sum (a + b of plain names), as the tested expression does
+            dens_src = {}
+            for d in dens:
+                try:
+                    node = ast.parse(_DUMP_SRC.get(d, ''), mode='eval').body if d in _DUMP_SRC else None
+                except SyntaxError:
+                    node = None
+                dens_src[d] = _DUMP_SRC[d] if (node is not None and isinstance(node, ast.BinOp) and
+                                               isinstance(node.op, ast.Add) and isinstance(node.left, ast.Name) and
+                                               isinstance(node.right, ast.Name)) else None
+            if want in dens:
+                out.ok(fn, st, f'installed only where its denominator `{astx.src(e)}` exceeds eps')
+                return
+            other = [guards[d] for d in dens if d in guards] or [src_ for d, src_ in dens_src.items() if src_]
+            if other:
+                out.bad(fn, st, f'`{astx.src(st)}` installs a quotient with denominator `{other[0]}` under the zero test '
+                        f'of `{astx.src(e)}`: where `{other[0]}` is 0 but `{astx.src(e)}` is not, 0/0 (NaN) is '
+                        'returned, also at grid nodes; where it is the other way round the safeguard value is skipped',
+                        key='zero-guard-mismatch')
+        for st in astx.walk_stmts(fn.node.body):
+            if not isinstance(st, ast.Assign):
+                continue
+            # (i) masked store  T[jj] = ...
+            done = False
+            for t in st.targets:
+                if isinstance(t, ast.Subscript) and isinstance(t.slice, ast.Name):
+                    ds = ctx.rd.defs(ctx.at(st), t.slice.id)
+                    ms = {masks[id(d.ast)] for d in ds if d.kind == 'stmt' and id(d.ast) in masks} if ds else set()
+                    if len(ms) == 1 and len(ds) == 1:
+                        mname, e = next(iter(ms))
+                        # a value selected with a different mask is a mismatch of its own
+                        sel = [n for n in astx.walk(st.value) if isinstance(n, ast.Subscript) and
+                               isinstance(n.slice, ast.Name) and n.slice.id != mname and
+                               any(d.kind == 'stmt' and id(d.ast) in masks for d in ctx.rd.defs(ctx.at(st), n.slice.id))]
+                        if sel:
+                            out.bad(fn, st, f'stores under mask `{mname}` values selected with mask `{sel[0].slice.id}`',
+                                    key='zero-guard-mismatch')
+                        else:
+                            judge(st, e, mname)
+                        done = True
+            if done:
+                continue
+            # (ii) assignment directly inside `if E > eps:`
+            par = getattr(st, '_parent', None)
+            cur = st
+            while isinstance(par, ast.If) and _guard_expr(par.test) is None and cur in par.body:
+                cur, par = par, getattr(par, '_parent', None)      # nested `if compute_local_train:`
+            if isinstance(par, ast.If) and cur in par.body:
+                e = _guard_expr(par.test)
+                if e is not None:
+                    judge(st, e, None)
+
+
 # ========================================================================== C15.cachekey (SLOT)
 def _names_no_dtype(e):
     """Names read by expression e, ignoring `.dtype` look-ups (they never depend on the cell)."""
@@ -2444,6 +2628,25 @@ selftest(
            '        idx = (i_x, i_y)\n\n        # Complex Step\n        if self.values.dtype == complex:\n'
            '            dtype = self.values.dtype\n        else:\n            dtype = x.dtype\n\n        if idx not in self.coeffs:\n'
            '            self.coeffs[idx] = self.compute_coeffs((i_x, i_y, i_z), dtype)', 'C15.cachekey'),
+    # ---------------------------------------------------------------- C15.rebuild
+    Mutant('rebuild-stale-table-seed', MMS, '        for name, train_data in self.training_outputs.items():\n'
+           '            self.interps[name] = InterpND(',
+           '        for name, train_data in self.training_outputs.items():\n            if name in self.interps:\n'
+           '                continue\n            self.interps[name] = InterpND(', 'C15.rebuild'),
+    Mutant('rebuild-semi-stale-table', MMSS, '        for name, train_data in self.training_outputs.items():\n'
+           '            self.interps[name] = InterpNDSemi(',
+           '        for name, train_data in self.training_outputs.items():\n            if name not in self.interps:\n'
+           '                self.interps[name] = InterpNDSemi(', 'C15.rebuild'),
+    # ---------------------------------------------------------------- C15.zeroguard
+    Mutant('zeroguard-akima-mask-seed', _AK, '        bp1[jj2] = bp1pos[jj2]\n', '        bp1[jj1] = bp1pos[jj1]\n', 'C15.zeroguard'),
+    Mutant('zeroguard-akima-mask-definition', _AK, '        jj2 = np.where(np.atleast_1d(w32 + w4) > eps)',
+           '        jj2 = np.where(np.atleast_1d(w2 + w31) > eps)', 'C15.zeroguard'),
+    Mutant('zeroguard-akima-mixed-masks', _AK, '        bp1[jj2] = bp1pos[jj2]\n', '        bp1[jj2] = bp1pos[jj1]\n', 'C15.zeroguard'),
+    Mutant('zeroguard-semi-test', _AK, '        if w32 + w4 > eps:\n            bp1 = bp1pos\n',
+           '        if w2 + w31 > eps:\n            bp1 = bp1pos\n', 'C15.zeroguard'),
+    Mutant('zeroguard-1d-test', _AK, '        if w32 + w4 >= eps:\n', '        if w2 + w31 >= eps:\n', 'C15.zeroguard'),
+    Mutant('zeroguard-1d-vec-mask', _AK, '        jj = np.where(w32 + w4 >= eps)[0]', '        jj = np.where(w2 + w31 >= eps)[0]',
+           'C15.zeroguard'),
     # ---------------------------------------------------------------- C15.methods
     Mutant('methods-dim-swap', _I, "'2D-slinear': Interp2DSlinear,", "'2D-slinear': Interp3DSlinear,", 'C15.methods'),
     Mutant('methods-family-swap', _I, "'1D-lagrange2': Interp1DLagrange2,", "'1D-lagrange2': Interp1DLagrange3,",
@@ -2606,6 +2809,20 @@ selftest(
            '        xnew = self._interpolate(x[:1])\n\n        if compute_derivative:', 'C15.entry'),
     # ---------------------------------------------------------------- twins
     Twin('twin-flag-branches-swapped', _I, _CHECK_BLOCK, _CHECK_BLOCK_FLIPPED),
+    Twin('twin-rebuild-comprehension', MMS, "        for name, train_data in self.training_outputs.items():\n"
+         "            self.interps[name] = InterpND(method=interp_method,\n"
+         "                                          points=self.inputs, values=train_data,\n"
+         "                                          extrapolate=self.options['extrapolate'])",
+         "        self.interps = {name: InterpND(method=interp_method, points=self.inputs, values=train_data,\n"
+         "                                       extrapolate=self.options['extrapolate'])\n"
+         "                        for name, train_data in self.training_outputs.items()}"),
+    Twin('twin-rebuild-cleared-first', MMS, "        for name, train_data in self.training_outputs.items():\n"
+         "            self.interps[name] = InterpND(",
+         "        self.interps.clear()\n        for name, train_data in self.training_outputs.items():\n"
+         "            self.interps[name] = InterpND("),
+    Twin('twin-zeroguard-flipped-test', _AK, '        if w32 + w4 > eps:\n            bp1 = bp1pos\n',
+         '        if eps < w32 + w4:\n            bp1 = bp1pos\n'),
+    Twin('twin-zeroguard-mask-renamed', _AK, 'jj2', 'sel2', nth='all'),
     Twin('twin-guard-clause-hoisted', _I, _CHECK_BODY, _GUARD_BODY),
     Twin('twin-guard-clause-all', _I, _CHECK_BODY, _GUARD_BODY.replace(
         'if not (np.any(p < lower - eps) or np.any(p > upper + eps)):',
